@@ -258,6 +258,9 @@ func shapes() []Shape {
 }
 
 // callSafely calls f and converts a panic into (panicValue, true).
+type namedFactoryErr func() (Comp, error)
+type namedFactory func() Comp
+
 func callSafely(f func()) (pv any, panicked bool) {
 	defer func() {
 		if r := recover(); r != nil {
@@ -356,11 +359,19 @@ func runCase(res *vkit.Result, c Case) {
 			fail("fill-count", "fill function called %d times for one New", l.fillCalls)
 		}
 	default:
+		// the requested factory type is a plain func type or a named one (type NewComp func() …):
+		// what comes back must be of exactly the requested type
+		withErr := strings.HasPrefix(c.Form, "factory-err")
 		var ft reflect.Type
-		if c.Form == "factory-err" {
+		switch c.Form {
+		case "factory-err":
 			ft = reflect.TypeOf((func() (Comp, error))(nil))
-		} else {
+		case "factory-noerr":
 			ft = reflect.TypeOf((func() Comp)(nil))
+		case "factory-err-named":
+			ft = reflect.TypeOf((namedFactoryErr)(nil))
+		default:
+			ft = reflect.TypeOf((namedFactory)(nil))
 		}
 		var f any
 		var err error
@@ -379,20 +390,26 @@ func runCase(res *vkit.Result, c Case) {
 			fail("unexpected-error", "NewFactory returned %v", err)
 			return
 		}
+		if got := reflect.TypeOf(f); got != ft {
+			fail("factory-type", "a factory of type %v was requested, NewFactory returned a %v", ft, got)
+			return
+		}
 		var prev []Comp
 		for i := 0; i < c.Calls; i++ {
 			var p Comp
 			var cerr error
 			pv, panicked := callSafely(func() {
-				if c.Form == "factory-err" {
-					p, cerr = f.(func() (Comp, error))()
-				} else {
-					p = f.(func() Comp)()
+				outs := reflect.ValueOf(f).Call(nil)
+				if !outs[0].IsNil() {
+					p, _ = outs[0].Interface().(Comp)
+				}
+				if withErr && !outs[1].IsNil() {
+					cerr, _ = outs[1].Interface().(error)
 				}
 			})
 			if where == "call" {
 				switch {
-				case c.Form == "factory-err":
+				case withErr:
 					if panicked {
 						fail("panic", "factory with an error result panicked instead of returning the error: %v", pv)
 					} else if cerr == nil || !strings.Contains(cerr.Error(), wantErr.Error()) {
@@ -1294,7 +1311,7 @@ func main() {
 	res := vkit.NewResult("exhaustive cross product of constructor shapes (component|factory × no config|struct|*struct × error result × inner error result / impl-typed result × default-config func) × requested form (New, factory with error, factory without error) × outcome (ok, constructor error, inner factory error, config error) × 1–5 factory calls with mutation of each product's config; plus every config-taking shape through the `type:` config hooks; plus plugins nested three deep in plugins of the same registered name and two overlapping creations (one held in the middle of decoding by a blocking field) for value/pointer/factory shapes; plus one decoded factory called from 16 goroutines at once (every product must come from its own freshly created default); distinct = distinct (shape, form, outcome, calls); all are non-trivial")
 	n := 0
 	for _, s := range shapes() {
-		for _, form := range []string{"new", "factory-err", "factory-noerr"} {
+		for _, form := range []string{"new", "factory-err", "factory-noerr", "factory-err-named", "factory-noerr-named"} {
 			for _, outcome := range []string{"ok", "ctor-error", "inner-error", "config-error"} {
 				if outcome == "ctor-error" && !s.CtorErr {
 					continue
